@@ -1,24 +1,25 @@
 (* C01 - every required file is extracted exactly once, and nothing else is.
-   Only statements here; proofs are in Proofs.v, Trace.v, SpecProofs.v, C01Proofs.v, SubdirProofs.v. *)
+   Only statements here; proofs are in Proofs.v, Trace.v, SpecProofs.v, C01Proofs.v, SubdirProofs.v.
+   (Model and theorems describe the code after the fix commits c6e92489, 9b0c17fd, 47f6ad08: no domain restriction left.) *)
 From Coq Require Import List ZArith NArith Bool Permutation.
 From Scalibr Require Import Walk.Model Walk.Spec Walk.Sched Walk.Proofs Walk.Trace Walk.SpecProofs Walk.C01Proofs
   Walk.SubdirProofs Walk.Witness.
 Import ListNotations.
 
 (* For every finite tree t (well-formed: entry names pairwise different, none "."), every configuration c
-   (any extractors, any FileRequired / Extract callbacks, any go-git / regexp / glob oracle, any skip list,
-   symlink and size options) without inode limit and cancellation, scanning the fault-free tree as a whole:
-   the Extract calls of the engine are exactly the specified ones, in order, and none is made twice --
-   on the domain D = dom_C01 (see the two refutations below). *)
-Theorem walk_calls_exact_on_D : forall c t,
+   (any extractors, any FileRequired / Extract callbacks -- FileRequired may consult api.Stat() --, any go-git /
+   regexp / glob oracle, any skip list, regex and glob alone or together, .gitignore files at any depth including
+   the scan root, symlink and size options) without inode limit and cancellation, scanning the fault-free tree as
+   a whole: the Extract calls of the engine are exactly the specified ones, in order, and none is made twice. *)
+Theorem walk_calls_exact : forall c t,
   wf_tree t = true -> fault_free t = true -> no_limits c = true -> no_xpanic c -> c_paths c = [] ->
-  NoDup (c_exts c) -> dom_C01 c t = true ->
+  NoDup (c_exts c) ->
   fs_calls c t = expected_calls c t /\ NoDup (fs_calls c t).
 Proof.
-  intros c t WF FF NL NP P NE D. pose proof (whole_tree_calls c t WF FF NL NP P D) as E.
+  intros c t WF FF NL NP P NE. pose proof (whole_tree_calls c t WF FF NL NP P) as E.
   split; [exact E|]. rewrite E. apply expected_calls_nodup; assumption.
 Qed.
-Print Assumptions walk_calls_exact_on_D.
+Print Assumptions walk_calls_exact.
 
 (* The reported inventory is the concatenation of what the Extract calls returned, each package attributed to
    the extractor that produced it -- for every tree, faulty or not, and every configuration. *)
@@ -27,10 +28,9 @@ Theorem walk_inventory_exact : forall c t inv sts st,
 Proof. exact run_inventory_of_trace. Qed.
 Print Assumptions walk_inventory_exact.
 
-(* Inventory and plugin statuses of filesystem.Run are exactly the specified ones (on D). *)
+(* Inventory and plugin statuses of filesystem.Run are exactly the specified ones. *)
 Theorem walk_status_exact : forall c t,
   wf_tree t = true -> fault_free t = true -> no_limits c = true -> no_xpanic c -> c_paths c = [] ->
-  dom_C01 c t = true ->
   exists st, run c [t] = ROk (inventory_of_calls c (expected_calls c t))
                              (map (fun e => (e, expected_status c (expected_calls c t) e)) (c_exts c)) st.
 Proof. exact whole_tree_results. Qed.
@@ -41,7 +41,6 @@ Print Assumptions walk_status_exact.
 Theorem subdir_request_equiv : forall c t d n ch df,
   c_paths c = [d] -> c_ignore_subdirs c = false ->
   wf_tree t = true -> fault_free t = true -> no_limits c = true -> no_xpanic c ->
-  dom_C01 c t = true ->
   d <> [] -> ~ In DOT d -> lookup_from t d = Some (Dir n ch df) -> reached (whole_tree c) t d = true ->
   fs_calls c t = filter (fun ep => is_prefix d (snd ep)) (fs_calls (whole_tree c) t).
 Proof. exact subdir_request_lemma. Qed.
@@ -57,27 +56,13 @@ Theorem requested_file_direct : forall c t p n k sz d ff,
 Proof. exact requested_file_lemma. Qed.
 Print Assumptions requested_file_direct.
 
-(* The engine does not meet the specification when a skip regex and a skip glob are both configured:
-   shouldSkipDir returns the regex's verdict and never consults the glob. *)
-Theorem regex_and_glob_both_apply_refuted :
-  exists c t, wf_tree t = true /\ fault_free t = true /\ no_limits c = true /\ NoDup (c_exts c) /\
-              fs_calls c t <> expected_calls c t.
-Proof. exact regex_and_glob_refuted_lemma. Qed.
-Print Assumptions regex_and_glob_both_apply_refuted.
-
-(* ... nor when the scan root itself holds a .gitignore: its pattern domain is ["."], which go-git
-   requires to be a prefix of the matched path. *)
-Theorem root_gitignore_applies_refuted :
-  exists c t, wf_tree t = true /\ fault_free t = true /\ no_limits c = true /\ NoDup (c_exts c) /\
-              fs_calls c t <> expected_calls c t.
-Proof. exact root_gitignore_refuted_lemma. Qed.
-Print Assumptions root_gitignore_applies_refuted.
-
-(* non-vacuity: a tree with a nested .gitignore inside the domain; the engine makes exactly the expected calls *)
-Example domain_example :
-  dom_C01 (with_gitignore base_cfg pat_a) t_sub_gi = true /\
+(* non-vacuity, and the former defects as regression examples: a nested .gitignore; regex and glob both set
+   (./a by the regex, ./b by the glob: nothing is scanned); a .gitignore in the scan root ("a": ./a and ./b/a ignored) *)
+Example repaired_examples :
   fs_calls (with_gitignore base_cfg pat_a) t_sub_gi = [(e0, [nB; GI]); (e0, [nB; nC; nZ]); (e0, [nB; nZ])] /\
-  expected_calls (with_gitignore base_cfg pat_a) t_sub_gi = [(e0, [nB; GI]); (e0, [nB; nC; nZ]); (e0, [nB; nZ])].
+  expected_calls (with_gitignore base_cfg pat_a) t_sub_gi = [(e0, [nB; GI]); (e0, [nB; nC; nZ]); (e0, [nB; nZ])] /\
+  fs_calls c_re_glob t_two_dirs = [] /\ expected_calls c_re_glob t_two_dirs = [] /\
+  fs_calls c_gi t_root_gi = [(e0, [GI])] /\ expected_calls c_gi t_root_gi = [(e0, [GI])].
 Proof. vm_compute. repeat split; reflexivity. Qed.
 
 (* non-vacuity of the sub-directory statement: ./b/.gitignore ("a") applies inside the requested ./b/c *)
